@@ -49,9 +49,19 @@ def le_hard(lo, hi, a, quick, timeout):
          "len <= 48 bytes (this unit: every len %d..%d at alignment %d; bytes and seed symbolic)" % (lo, hi, a),
          backend="kissat,cadical", quick=quick, timeout=timeout, funcs="spifhash_jenkinsLE, spifhash_jenkins")
 for a in (0, 4):
-    for lo in range(12, 24, 4):
-        le_hard(lo, lo + 3, a, True, 280)
+    for lo in range(12, 24, 2):
+        le_hard(lo, lo + 1, a, True, 280)
     for lo in range(24, 36, 2):
         le_hard(lo, lo + 1, a, False, 400)
     for lo in range(36, 49):
         le_hard(lo, lo, a, False, 600)
+# FNV: one step of the published shift-add form is the multiplication by the FNV prime (all 2^32 values)
+print("""/*@unit
+name: equiv.fnv.prime_lemma
+define: U_FNV_LEMMA
+src: builtin_hashes.c
+backend: z3,sat
+tier: P
+timeout: 120
+funcs: spifhash_fnv
+*/""")
